@@ -180,3 +180,20 @@ Theorem federation_keys_verdict_independent_of_naming :
   forall per per' m, Permutation (map snd per) (map snd per') -> fedkeys_ok per m = fedkeys_ok per' m.
 Proof. exact MergeProofsKeys.fedkeys_ok_naming. Qed.
 Print Assumptions federation_keys_verdict_independent_of_naming.
+
+(** Federated objects (validateFederatedObjects): acceptance means an object some service federates is
+    federated by every service that has it; the verdict is symmetric in the services (no dependence on names
+    or on the order in which they are visited). *)
+Theorem federated_objects_accepted_are_federated_everywhere :
+  forall per m,
+    fedobjs_ok per m = true ->
+    forall mt, In mt m -> t_name mt <> "Query" -> t_name mt <> "Mutation" ->
+    forall a ta, In a per -> In ta (snd a) -> t_name ta = t_name mt -> type_has_field ta "_federation" = true ->
+    forall b tb, In b per -> In tb (snd b) -> t_name tb = t_name mt -> type_has_field tb "_federation" = true.
+Proof. exact MergeProofsKeys.fedobjs_ok_sound. Qed.
+Print Assumptions federated_objects_accepted_are_federated_everywhere.
+
+Theorem federated_objects_verdict_independent_of_naming :
+  forall per per' m, Permutation (map snd per) (map snd per') -> fedobjs_ok per m = fedobjs_ok per' m.
+Proof. exact MergeProofsKeys.fedobjs_ok_naming. Qed.
+Print Assumptions federated_objects_verdict_independent_of_naming.
